@@ -99,7 +99,7 @@ def run(ctx):
                 call = [x for x in okw[0].call_nodes() if x.a["callee"].endswith("convert_arg_to_number")]
                 if call:
                     arg = call[0].kids[1]
-                    idx = [x for x in arg.walk() if x.k == "index"]
+                    idx = [x for x in arg.walk() if x.k == "index"] or (C.token_at_offset(fn, arg) == 1)
                     # operand is args[i+1]
                     txt = arg.fmt()
                     ctx.ob("R1", "token:%s-operand" % tok, bool(idx), "operand of %s is %s" % (tok, txt), fn=fn, where=prim.site(fn, a.entry), nontrivial=False)
